@@ -31,7 +31,7 @@ def positions():
 
 
 def parse_spec(spec):
-    m = re.match(r"d(\d+)(?:n(\d+))?(x?)(l?)(?:[scmk]\d+)?(?:t[\d:]+)?$", spec)
+    m = re.match(r"d(\d+)(?:n(\d+))?(x?)(l?)(?:[scmk]\d+)?(?:t[\d:]+)?q?$", spec)
     return int(m.group(1)), (int(m.group(2)) if m.group(2) else None), m.group(3) == "x", m.group(4) == "l"
 
 
@@ -135,9 +135,9 @@ def make_cases(tier, seed, groups):
     return cases
 
 
-def run_engine(cases):
+def run_engine(cases, timeout=1800):
     inp = "".join("%s | %s | %s\n" % (c["fen"], " ".join(c["moves"]), ";".join(c["specs"])) for c in cases)
-    rc, so, se = C.driver(["search"], inp, timeout=1800)
+    rc, so, se = C.driver(["search"], inp, timeout=timeout)
     if rc != 0:
         raise RuntimeError("driver search failed rc=%s %s" % (rc, se[-500:]))
     out = []
